@@ -188,6 +188,29 @@ func discharge(groups []*ObGroup, opt DischargeOpts) {
 	// term construction is single-threaded
 	for _, g := range groups {
 		q := g.query()
+		if os.Getenv("GOVC_DEBUG_Q") != "" && strings.Contains(g.Name, os.Getenv("GOVC_DEBUG_Q")) {
+			for i, o := range g.Instances {
+				fmt.Printf("  inst %d path=%d claim=%v pcAndFalse=%v full=%v\n", i, o.Path, o.Claim.String() == "false", And(o.PC...).IsFalse(), And(append(append([]*Term(nil), o.PC...), Not(o.Claim))...).IsFalse())
+				ids := map[int]int{}
+				for k, f := range o.PC {
+					ids[f.id] = k
+				}
+				for k, f := range o.PC {
+					if f.IsFalse() {
+						fmt.Printf("     pc[%d] is false\n", k)
+					}
+					if f.Op == "not" {
+						if j, ok := ids[f.Args[0].id]; ok {
+							fs := f.String()
+							if len(fs) > 200 {
+								fs = fs[:200]
+							}
+							fmt.Printf("     pc[%d] negates pc[%d]: %s\n", k, j, fs)
+						}
+					}
+				}
+			}
+		}
 		if q.IsFalse() {
 			if g.Canary {
 				g.Status = "vacuous"
